@@ -22,7 +22,8 @@ def config(tier):
     return {
         "hashseeds": [0, 1, 2] if q else [0, 1, 2, 3, 4, 5, 6, 7],
         "families": ["G2", "DG4"],
-        "mc": [],
+        "mc": [{"module": "MCFas", "cfg": "MCFas", "workers": 4, "timeout": 900},
+               {"module": "MCLoops", "cfg": "MCAcyclicUnroll", "workers": 4, "timeout": 900}],
         "shards": 8 if q else 16,
         "negctl": 10,
     }
